@@ -45,16 +45,17 @@ def confirm(wt, name, prop, needs):
     log["suite_with_change"] = summary[0]
     suite_ok = "273 passed" in summary[0] and failed <= BASE_FAIL
     rc_with, o_with = sh(f"{PY} demo.py", wt, 900)
-    sh("git stash", wt)
+    # (not git stash: the stash is shared by all worktrees of a repository)
+    sh("git checkout -- nrel", wt)
     try:
         rc_without, o_without = sh(f"{PY} demo.py", wt, 900)
     finally:
-        sh("git stash pop", wt)
+        sh(f"git apply {os.path.join(out, 'patch.diff')}", wt)
     log["demo_with_change"] = {"exit": rc_with, "tail": o_with.strip().splitlines()[-1:] if o_with.strip() else []}
     log["demo_without_change"] = {"exit": rc_without, "tail": o_without.strip().splitlines()[-1:] if o_without.strip() else []}
     ok = suite_ok and rc_with == 1 and rc_without == 0
     meta = {"name": name, "property": prop, "needs_to_manifest": needs, "confirmed": ok, "confirmed_at": time.strftime("%Y-%m-%d %H:%M:%S"),
-            "what_was_run": ["git -C <worktree> diff -- nrel", "pytest (unedited suite) with the change", "demo.py with the change", "git stash; demo.py; git stash pop"],
+            "what_was_run": ["git -C <worktree> diff -- nrel", "pytest (unedited suite) with the change", "demo.py with the change", "git checkout -- nrel; demo.py; git apply patch.diff"],
             "results": log, "checks": {}}
     with open(os.path.join(out, "meta.json"), "w") as f:
         json.dump(meta, f, indent=1)
